@@ -278,6 +278,37 @@ def oracle_pools(ctx, obs):
                                   {"kind": "pool_reduction", "fn": name}, dict(inp, got=o[name], single_thread=ref[name]))
 
 
+def oracle_simpson(ctx, obs):
+    """Simpson's rule is exact on cubics: every division count (both sides of the sequential/parallel threshold of `simpson`) on every
+    pool size must give the exact integral of a polynomial that does not vanish at the upper limit, to 1e-12 relative"""
+    refs = {o["case"]: o for o in obs if o["kind"] == "simpson_ref"}
+
+    def prim(c, a, b):
+        return sum(Fraction(ck) * (b ** (k + 1) - a ** (k + 1)) / (k + 1) for k, ck in enumerate(c))
+    for o in obs:
+        if o["kind"] != "simpson":
+            continue
+        r = refs[o["case"]]
+        c, ci = [H(x) for x in r["c"]], [H(x) for x in r["ci"]]
+        a, b, a2, b2 = H(r["a"]), H(r["b"]), H(r["a2"]), H(r["b2"])
+        ex1 = (prim(c, a, b), prim(ci, a, b))
+        ex2 = (prim(c, a, b) * prim(ci, a2, b2), (b * b - a * a) / 2 * (b2 - a2) + (b2 * b2 - a2 * a2) / 2 * (b - a) + 3 * (b - a) * (b2 - a2))
+        pool = "the global pool" if o["threads"] == 0 else f"a pool of {o['threads']} thread(s)"
+        for key, ex, what, call in (("one", ex1, "Simpson", "integrate(|x| p(x) + i q(x), a, b)"), ("two", ex2, "2-D Simpson", "integrate2d(|x, y| p(x) q(y) + i (x + y + 3), a, b, a2, b2)")):
+            for d, re_, im_ in o[key]:
+                ctx.seen(("simpson", key, o["case"], o["threads"], d))
+                ctx.count(f"simpson:{key}:" + ("divs<130" if d < 130 else "divs>=130"))
+                ok = all(is_finite_hex(x) for x in (re_, im_)) and relclose(H(re_), ex[0], TOL_RED, abs(ex[0])) and relclose(H(im_), ex[1], TOL_RED, abs(ex[1]))
+                if not ok:
+                    ctx.violation("S5", f"{what} with divs = {d} on {pool} (rayon::current_num_threads() = {o['current_num_threads']}): Integrator::Simpson {{ divs: {d} }}.{call} = "
+                                        f"({f64_of_hex(re_)!r}, {f64_of_hex(im_)!r}) but the rule is exact on cubics and the integral is ({float(ex[0])!r}, {float(ex[1])!r}); "
+                                        f"relative deviation {abs(float((H(re_) - ex[0]) / ex[0])):.2e} (the other division counts / pool sizes agree with the exact value)",
+                                  {"kind": "simpson_exactness", "which": key, "parallel_branch": bool(key == "one" and d + d % 2 - 2 >= 128)},
+                                  {"call": f"Integrator::Simpson {{ divs: {d} }}.{call}", "threads": o["threads"], "current_num_threads": o["current_num_threads"], "divs": d,
+                                   "p_coefficients": r["c"], "q_coefficients": r["ci"], "a": r["a"], "b": r["b"], "a2": r["a2"], "b2": r["b2"],
+                                   "got": [re_, im_], "exact": [float(ex[0]), float(ex[1])]})
+
+
 # ---------------------------------------------------------------------------------------------------- S4
 def correspondence(ctx, obs, quick):
     roots = {o["root"]: o for o in obs if o["kind"] in ("root1d", "root2d")}
@@ -394,10 +425,10 @@ def run(ctx):
     want = replay_setup(ctx)
     quick = ctx.tier == "quick"
     binp = build_harness(ctx)
-    msgs, spans = regen(ctx, ["grid"])
-    ctx.cov["translated_spans"] = {k: v for k, v in spans.items() if k.startswith("grid.") and any(w in k for w in ("par", "it1d", "it2d", "steps_value", "steps2d_value"))}
+    msgs, spans = regen(ctx, ["grid", "c15_reductions"])
+    ctx.cov["translated_spans"] = {k: v for k, v in spans.items() if k.startswith("c15_reductions.") or k.startswith("grid.") and any(w in k for w in ("par", "it1d", "it2d", "steps_value", "steps2d_value"))}
     for m in msgs:
-        ctx.proof_failures.append(("Gen/Grid.v", "translator", m))
+        ctx.proof_failures.append(("Gen/C15_Reductions.v" if "generator c15_reductions" in m else "Gen/Grid.v", "translator", m))
     proved = (not msgs) and prove(ctx, "C15", extra_targets=["Model/GridCheck.vo", "Props/C15_pins.vo"])
     tier = "thorough" if not quick else "quick"
     obs = run_harness(ctx, binp, ["c15", ctx.seed, 2 if quick else 10, "trees", tier], timeout=900)
@@ -410,6 +441,24 @@ def run(ctx):
     if not any(o["kind"] in ("done", "timeout") for o in pobs):
         ctx.violation("S5", "harness did not finish the thread-pool runs", {"kind": "crash"}, {"tail": pobs[-1] if pobs else None})
     oracle_pools(ctx, pobs)
+    sobs = run_harness(ctx, binp, ["c15", ctx.seed, 2 if quick else 8, "simpson"], timeout=1200)
+    if not any(o["kind"] in ("done", "timeout") for o in sobs):
+        ctx.violation("S5", "harness did not finish the Simpson runs", {"kind": "crash"}, {"tail": sobs[-1] if sobs else None})
+    oracle_pools(ctx, [o for o in sobs if o["kind"] in ("timeout", "pool_panic")])
+    oracle_simpson(ctx, sobs)
+    # self-test: a parallel branch that drops the last node (relative change ~ 1/(3 divs)) must be flagged at its division counts only
+    import copy
+    so = next((o for o in sobs if o["kind"] == "simpson"), None)
+    if so:
+        c = copy.deepcopy(so)
+        c["one"] = [[d, re_, im_] if d + d % 2 - 2 < 128 else [d, "0x%016x" % struct.unpack(">Q", struct.pack(">d", f64_of_hex(re_) * (1 - 1 / (3.0 * d))))[0], im_] for d, re_, im_ in c["one"]]
+        probe = Ctx("C15", ctx.tier, ctx.seed)
+        oracle_simpson(probe, [o for o in sobs if o["kind"] == "simpson_ref"] + [c])
+        flagged = {v["detail"]["divs"] for v in probe.violations}
+        expect = {d for d, _, _ in c["one"] if d + d % 2 - 2 >= 128}
+        ctx.log(f"S5 oracle self-test (Simpson): dropped last node flagged at divs {sorted(flagged)}")
+        if flagged != expect:
+            ctx.note(f"oracle self-test: a Simpson parallel branch dropping its last node was flagged at {sorted(flagged)}, expected {sorted(expect)}")
     for o in obs:
         if o["kind"] == "tree1d" and o["tree"] != "L" and "vals" in o and len(o["vals"]) >= 3:
             ctx.sample({"tree": o["tree"][:80], "leaf_sizes": o["lens"][:12], "first_values": [f64_of_hex(x) for x in o["vals"][:3]]}, limit=3)
@@ -430,6 +479,8 @@ def run(ctx):
         for k in range(2):
             obs2 = run_harness(ctx, binp, ["c15", ctx.seed + 1000 + k, 6, "trees", "thorough"], timeout=900)
             oracle_trees(ctx, obs2)
+            oracle_simpson(ctx, run_harness(ctx, binp, ["c15", ctx.seed + 1000 + k, 6, "simpson"], timeout=1200))
+            oracle_pools(ctx, run_harness(ctx, binp, ["c15", ctx.seed + 1000 + k, 2, "pools", "quick"], timeout=1200))
             if any(v["found_input"] for v in ctx.violations):
                 break
     ctx.cov["rule"] = ("split trees on the real producers: ALL proper trees for lengths 0..7 (0..8 thorough) in 1-D and for grids up to 8 points in 2-D; every single split "
@@ -442,7 +493,9 @@ def run(ctx):
         "1-D range: any split tree": "proved over the reals; float clause proved_partial (Flocq, FLX-53 rounding of every operation: ((1+4u)^(depth+1)-1) of the range scale; guard: no overflow/underflow) and checked against the harness",
         "len contract of reachable producers": "proved",
         "enumerate / indexed collect deliver point k at position k": "proved (model of rayon's EnumerateProducer / CollectConsumer)",
-        "reductions (sums) independent of the tree": "proved in any monoid (R, C); 1e-12 float clause validated_only on pools of 1..16 threads",
+        "reductions (sums) independent of the tree": "proved in any monoid (R, C), also under enumerate(); tied to the code by the generated call-site table (counts, hom_rate, simpson, "
+                                                     "simpson2d: every parallel site classified and pinned; simpson's parallel branch proved to sum the same nodes through the same closures as its "
+                                                     "sequential branch); 1e-12 float clause validated_only on pools of 1..16 threads; Simpson checked exactly on cubics across the 128 threshold",
         "range functions bit-identical across schedules": "follows from collect theorem for deterministic point functions; validated on pools; arrays whose point function "
                                                           "contains a parallel quadrature (singles) are compared to 1e-12",
         "nested parallel regions complete": "validated, not proved (time-limited runs on pools of 1..16 threads)",
